@@ -192,5 +192,26 @@ def run(tier):
                          site="GpLinearInverter.marginal_likelihood_gradient")
         if len(ck.samples) < 3 and len(pb["A"]) == 3:
             ck.sample({**idn, "spec_mean": want_mu.tolist(), "spec_cov": want_S.tolist(), "spec_evidence": want_ev})
+    # inverters given ONE composite covariance object (a sum: its components hold the spatial data): the first is unaffected by the second
+    from inference.gp.covariance import SquaredExponential, WhiteNoise
+    ck.case(("shared-composite",))
+    try:
+        comp = SquaredExponential() + WhiteNoise()
+        A1, y1, e1 = np.array([[1.0, 2.0, 0.0], [0.0, 1.0, 1.0]]), np.array([1.0, -2.0]), np.array([0.5, 0.5])
+        p1, p2 = np.array([[0.0], [1.0], [2.0]]), np.array([[0.0], [0.3], [5.0]])
+        th_ = np.array([2.0, 0.0, 0.0, -1.0])
+        i1 = GpLinearInverter(y=y1, y_err=e1, model_matrix=A1, parameter_spatial_positions=p1, prior_covariance_function=comp)
+        m_before, S_before = i1.calculate_posterior(th_)
+        ev_before = float(i1.marginal_likelihood(th_))
+        i2 = GpLinearInverter(y=y1 + 1, y_err=e1, model_matrix=A1, parameter_spatial_positions=p2, prior_covariance_function=comp)
+        i2.calculate_posterior(th_)
+        m_after, S_after = i1.calculate_posterior(th_)
+        ev_after = float(i1.marginal_likelihood(th_))
+        if not (np.array_equal(m_before, m_after) and np.array_equal(S_before, S_after) and ev_before == ev_after):
+            ck.violation("posterior of an inverter does not change when another inverter is constructed from the same (composite) covariance object",
+                         {"mean_before": m_before, "mean_after": m_after, "evidence_before": ev_before, "evidence_after": ev_after},
+                         site="GpLinearInverter:independence")
+    except Exception as ex:
+        ck.violation("GpLinearInverter raised (shared composite covariance object)", {"error": repr(ex)[:300]}, site="GpLinearInverter:independence")
     ck.traces += len(r.printed)
     return ck.finish()
